@@ -304,6 +304,26 @@ def gen_k_plan(run_seed: int, hashseed: int = 0, catalogue=None, p_backend_c: fl
         heap_knobs["guard"] = True
         if heap_knobs["realloc"] == "size_class":
             heap_knobs["realloc"] = "move"
+    # small-stack runs: the whole history runs on a thread with a 256 KiB stack, on vectors with
+    # thousands of stored entries over ONE index (several independent indexes of that size would be
+    # billions of legitimate iterations) (a kernel needs O(1) stack; one that takes a few bytes per loop
+    # iteration - an alloca inside a loop - runs off a small stack after a few thousand iterations and
+    # off the usual 8 MiB only after hundreds of thousands)
+    small_stack = False
+    orders = [len(ix) for ix in prob["inputs"].values()] + [len(prob["target"])]
+    if max(orders) <= 1 and len(set(prob["classes"].values())) <= 1 and not backend_c and sum(1 for n in prob["inputs"] if "s" in prob["formats"].get(n, "")) >= 1 \
+            and all(v <= 5000 for v in sizes.values()) and rng.random() < 0.3:
+        r3 = random.Random(rng.getrandbits(64))
+        small_stack = True
+        for x in sizes:
+            sizes[x] = 20000
+        for n, ix in prob["inputs"].items():
+            dims = [sizes[x] for x in ix]
+            k = r3.choice([3000, 6000, 9000]) if dims else 1
+            coords = [[c] for c in sorted(r3.sample(range(dims[0]), k))] if dims else [[]]
+            inputs[n] = {"dims": dims, "entries": [[c, gen_value(r3)] for c in coords]}
+        revalues = [{n: [gen_value(r3) for _ in t["entries"]] for n, t in inputs.items()}
+                    for _ in revalues[:1]]
     # history: relatives of the problem generated in the same process just before it (a storage twin
     # - same iteration structure, other index-to-dimension map - or the problem itself), for a subset
     # of the kernel kinds.  What is generated for a problem must not depend on it.
@@ -320,6 +340,7 @@ def gen_k_plan(run_seed: int, hashseed: int = 0, catalogue=None, p_backend_c: fl
         separate = ["assemble", "compute", "evaluate"]
         rng.shuffle(separate)
     return {
+        "small_stack": small_stack,
         "pre_generate": pre,
         "separate_modules": separate,
         "engine": "K",
